@@ -60,6 +60,7 @@ type Node struct {
 	next      map[string][]Outcome // per kind: outcomes for upcoming calls (FIFO)
 	restFail  map[string]int       // action -> number of upcoming requests to fail
 	restHold  map[string]*restHold // action -> hold the next request of that action (see HoldRest)
+	pingHang  time.Duration        // > 0: the REST /ping is answered only after this long
 	restDrop  map[string]int       // request pattern ("METHOD path?action" substring) -> number of upcoming product-originated requests whose connection is closed without an answer
 	pingFail  bool
 	StallFor  time.Duration
@@ -149,6 +150,7 @@ func (n *Node) listen() error {
 		if r.URL.Path == "/ping" && n.pingFail {
 			failIt = true
 		}
+		pingHang := r.URL.Path == "/ping" && n.pingHang > 0
 		dropIt := false
 		if r.Header.Get("X-Verif-Origin") == "" {
 			key := r.Method + " " + r.URL.Path + "?" + action
@@ -159,6 +161,14 @@ func (n *Node) listen() error {
 					break
 				}
 			}
+		}
+		if pingHang {
+			// the replica is there but gives no answer (frozen process, black-holed network)
+			d := n.pingHang
+			n.mu.Unlock()
+			time.Sleep(d)
+			http.Error(w, "too late", http.StatusGatewayTimeout)
+			return
 		}
 		if dropIt {
 			n.mu.Unlock()
@@ -509,6 +519,12 @@ func (n *Node) DropRest(pat string, times int) {
 		n.restDrop = map[string]int{}
 	}
 	n.restDrop[pat] += times
+	n.mu.Unlock()
+}
+
+func (n *Node) SetPingHang(d time.Duration) {
+	n.mu.Lock()
+	n.pingHang = d
 	n.mu.Unlock()
 }
 
